@@ -166,3 +166,60 @@ async def replay_d39(race: bool) -> dict:
         out["validated"] = any(t.startswith("validate user") for t in out["trace"])
         out["states"] = {s["label"]: [s["state"], bool(s["deferred"])] for s in after["steps"]}
     return out
+
+
+# ---------------------------------------------------------------------------------------------
+# D39-refine: "the step is deferred" and "a declaration re-attaches its orphan dynamic input" in either order
+# ---------------------------------------------------------------------------------------------
+
+SIG_ORDER = "commute:defer-vs-reattach:deferred-flag-depends-on-order"
+
+
+def trigger_is_refined() -> bool:
+    """Whether step_node_undefer_reattached carries the guard `AND NOT EXISTS (<unusable dynamic input>)`."""
+    import re
+    from stepup.core.step import STEP_SCHEMA
+    m = re.search(r"CREATE TRIGGER IF NOT EXISTS step_node_undefer_reattached.*?END;", STEP_SCHEMA, re.S)
+    return bool(m and "AND NOT EXISTS" in " ".join(m.group(0).split()))
+
+
+async def defer_reattach_pair(how: str, order: str) -> dict:
+    """S and `other` run (both children of the running ./plan.py).  S amends f1.txt, which nothing declares: an orphan
+    (UNDECLARED, detached).  r1: S is deferred (mark_completed(None, wants_defer)).  r2: `other` declares f1.txt --
+    `static`: a static file (UNCONFIRMED until it is hashed), `output`: the output of a new step (PLANNED) -- which
+    re-attaches the node.  Returns S's row and the next job after r1;r2 or r2;r1."""
+    from stepup.core.step import Step
+    from . import sched_model as M
+    from .wfutil import WF
+    async with WF(targets=frozenset(), target_dirs=frozenset(), defer_cap=3) as w:
+        wf, sched, db = w.wf, w.sched, w.db
+        async with db:
+            wf.define_step(w.plan, "S", out_paths=["s.txt"])
+            wf.define_step(w.plan, "other", out_paths=["o.txt"])
+            S, O = wf.find(Step, "S"), wf.find(Step, "other")
+        await sched.pop_next_job()
+        await sched.pop_next_job()
+        async with db:
+            S.reset_for_rerun()
+            O.reset_for_rerun()
+        async with db:
+            wf.amend_step(S, inp_paths=["f1.txt"], ran_concurrently=sched.ran_concurrently)
+
+        def r1():
+            S.mark_completed(None, True)
+
+        def r2():
+            if how == "static":
+                wf.declare_static_files(O, ["f1.txt"])
+            else:
+                wf.define_step(O, "mk", out_paths=["f1.txt"])
+
+        for r in ((r1, r2) if order == "r1r2" else (r2, r1)):
+            async with db:
+                r()
+        snap = await M._snap(w)
+        s = next(x for x in snap["steps"] if x["label"] == "S")
+        f = [(x["state"], bool(x["detached"])) for x in snap["files"] if x["label"] == "f1.txt"]
+        job = await sched.pop_next_job()
+        return {"how": how, "order": order, "S": [s["state"], bool(s["deferred"]), s["defer_count"]], "f1": f,
+                "next_job": job.step.label if job else None, "snapshot": snap}
